@@ -17,7 +17,7 @@ func init() {
 	register(&propCheck{
 		ID:    "C04",
 		Run:   runC04,
-		Level: "Static analysis (read records of every decoder against the hand-transcribed layout tables; dispatcher tables; receiver typestate). Decides: dispatch/<dispatcher>/<code> — each type code of a message the library can receive allocates the kind the table names (Parse by ofp_type, error vs experimenter error, the multipart reply body by multipart type, vendor payloads by experimenter type), and each OXM class/field case of the match-field dispatcher allocates a payload kind whose constant size equals the registry width of that field; rlayout/<kind>/<field> — the decoder has a read record at the specified offset, width and byte order that fills the Go field the table maps to the wire field (children at their offsets; sizes after facts), and fills nothing from an offset the table does not list; prealloc/<alloc site> — a decoder that copies into, or advances its cursor by the length of, a receiver slice it did not allocate itself needs a receiver built by the kind's constructor: every allocation of such a kind in the decode call graph is that constructor; retain/<decoder>/<loop> — elements decoded in list loops are stored into the receiver. With C07 (no panic) these give: nothing specified on the wire is dropped, shifted or read from a neighbouring field, for mapped kinds. Not decided: equality of values as such; packed sub-byte fields (lanes rules); kinds the table marks as deviating (known findings: OpenFlow 1.0 statistics structures). Also decided: extent/<kind> (the C05 rule) — the size a decoded element reports, by which every list decoder steps on, equals the bytes the element occupies. Also decided: errfail (as in C02); exhaust takes every comparison of a conjunctive loop condition.",
+		Level: "Static analysis (read records of every decoder against the hand-transcribed layout tables; dispatcher tables; receiver typestate). Decides: dispatch/<dispatcher>/<code> — each type code of a message the library can receive allocates the kind the table names (Parse by ofp_type, error vs experimenter error, the multipart reply body by multipart type, vendor payloads by experimenter type), and each OXM class/field case of the match-field dispatcher allocates a payload kind whose constant size equals the registry width of that field; rlayout/<kind>/<field> — the decoder has a read record at the specified offset, width and byte order that fills the Go field the table maps to the wire field (children at their offsets; sizes after facts), and fills nothing from an offset the table does not list; prealloc/<alloc site> — a decoder that copies into, or advances its cursor by the length of, a receiver slice it did not allocate itself needs a receiver built by the kind's constructor: every allocation of such a kind in the decode call graph is that constructor; retain/<decoder>/<loop> — elements decoded in list loops are stored into the receiver. With C07 (no panic) these give: nothing specified on the wire is dropped, shifted or read from a neighbouring field, for mapped kinds. Not decided: equality of values as such; packed sub-byte fields (lanes rules); kinds the table marks as deviating (known findings: OpenFlow 1.0 statistics structures). Also decided: extent/<kind> (the C05 rule) — the size a decoded element reports, by which every list decoder steps on, equals the bytes the element occupies. Also decided: errfail (as in C02); exhaust takes every comparison of a conjunctive loop condition. exhaust also reads an `if <comparison> { break }` standing directly in a list loop's body (the rest-is-padding exit) as one more conjunct of the loop condition.",
 		Assumptions: []string{
 			"spec/layout.json, spec/codes.json, spec/oxm_registry.json transcribe the cited specifications",
 			"reviewed fixed-width facts of checker/premises.go for receivers built by their constructors",
